@@ -14,17 +14,18 @@ one `rng` line, the `log RR` record.  Any other order does not parse and is reje
 
 Checks (tags):
   utilize-argmax   the logged prong is the LEFTMOST index of maximal utility among the values the
-                   sub-states reported (nested composite region = head x chosen sub, headless head = 0,
+                   sub-states reported (nested composite region = head x chosen sub, headless head = 1,
                    orthogonal region = head x (chain sum)/width, each operation rounded once to binary32)
   utilize-value    the logged utility is bit-identical to the chosen sub-state's reported value
   ortho-mean       the logged mean of an orthogonal region is bit-identical to (s0 + (s1 + (… + sn)))/width
   change-prong     `change` into a nested Composite region reports sub-state 0, into a Resumable or
                    Selectable one the resumable sub-state (else 0)
   random-none      a random resolution selected no prong although a top-rank utility is positive
-  random-none-headless   KNOWN FINDING (N5 consequence): every utility() answer of the resolution is positive,
-                   but the only top-rank candidates are nested regions with an anonymous head, whose computed
-                   utility is 0 x sub = 0: nothing is selected, compoRequested = INVALID_PRONG (HFSM2_BREAK;
-                   nested: `utilities[INVALID_PRONG]` is read out of bounds)
+  random-none-headless   REGRESSION CHECK for N5b (repaired by `fix: an anonymous region head reports the default
+                   utility, not zero`): every utility() answer of the resolution is positive, yet no top-rank
+                   candidate has a positive computed utility and nothing is selected (compoRequested =
+                   INVALID_PRONG, HFSM2_BREAK; nested: `utilities[INVALID_PRONG]` read out of bounds).  Before
+                   the repair this happened when the only top-rank candidates were headless nested regions.
   random-rank      the chosen prong does not have the top rank
   random-zero      the chosen prong has utility 0
   random-interval  (all candidates plain states) rnd*sum is outside the chosen sub-state's cumulative
@@ -126,7 +127,7 @@ class Parser:
 
     def head_utility(self, n, i):
         if not n.headed:
-            return 0.0, i, None              # S_<EmptyT>::wrapUtility returns Utility{} (N5)
+            return 1.0, i, None              # S_<EmptyT>::wrapUtility returns the default Utility{1} (N5 repaired)
         e = self.expect(i, 'U', n.id)
         if e[2] is None:
             raise ParseFail('utility() without an answer')
@@ -284,8 +285,8 @@ class Parser:
             elif 0.0 <= rnd < 1.0 and all(e[2] > 0.0 for e in self.ev[start:i] if e[0] == 'U'):
                 issues.append(('random-none-headless',
                                'region %d: every utility() answer is positive, yet the top-rank candidates\' computed '
-                               'utilities are %r (ranks %r): an anonymous head counts as utility 0; no prong selected, '
-                               'compoRequested = INVALID_PRONG' % (n.id, us, ranks)))
+                               'utilities are %r (ranks %r): no prong selected, compoRequested = INVALID_PRONG'
+                               % (n.id, us, ranks)))
             else:
                 issues.append(('skip', 'out of contract'))
             return NAN, i + 1                 # nested: the library now reads utilities[INVALID_PRONG] — undefined
